@@ -440,6 +440,20 @@ func (p *Prog) DependsOn(v ssa.Value, pred func(ssa.Value) bool) bool {
 					}
 				}
 			}
+		case *ssa.MakeSlice:
+			for _, b := range x.Parent().Blocks {
+				for _, ins := range b.Instrs {
+					if st, ok := ins.(*ssa.Store); ok && rootOf(st.Addr) == ssa.Value(x) {
+						work = append(work, st.Val)
+					}
+					if c, ok := ins.(*ssa.Call); ok && BuiltinName(c) == "copy" && rootOf(c.Call.Args[0]) == ssa.Value(x) {
+						work = append(work, c.Call.Args[1])
+					}
+				}
+			}
+			for _, o := range Operands(x) {
+				work = append(work, o)
+			}
 		case ssa.Instruction:
 			for _, o := range Operands(x) {
 				work = append(work, o)
@@ -447,6 +461,23 @@ func (p *Prog) DependsOn(v ssa.Value, pred func(ssa.Value) bool) bool {
 		}
 	}
 	return false
+}
+
+// rootOf follows IndexAddr/FieldAddr/Slice chains to the underlying value.
+func rootOf(v ssa.Value) ssa.Value {
+	for i := 0; i < 10; i++ {
+		switch x := v.(type) {
+		case *ssa.FieldAddr:
+			v = x.X
+		case *ssa.IndexAddr:
+			v = x.X
+		case *ssa.Slice:
+			v = x.X
+		default:
+			return v
+		}
+	}
+	return v
 }
 
 // baseAlloc follows FieldAddr/IndexAddr/Slice chains down to an Alloc.
